@@ -246,6 +246,44 @@ pub fn vf_version_ge(a: Version, b: Version) -> (r: bool)
     ensures r == (ver_num(a) >= ver_num(b))
 { unimplemented!() }
 
+#[verifier::external_body]
+pub fn vf_version_lt2(v: Version) -> (r: bool)
+    ensures r == (ver_num(v) < 2)
+{ unimplemented!() }
+/// `version as u8` of the fieldless enum: declaration order
+#[verifier::external_body]
+pub fn vf_version_u8(v: Version) -> (r: u8)
+    ensures r as int == ver_num(v)
+{ unimplemented!() }
+
+#[verifier::external_body]
+pub fn vf_sat_sub_usize(x: usize, y: usize) -> (r: usize)
+    ensures r as int == if x >= y { x - y } else { 0int }
+{ unimplemented!() }
+/// `a.checked_sub(b).ok_or_else(|| eyre!(..))`
+#[verifier::external_body]
+pub fn vf_checked_sub_or_err(a: usize, b: usize) -> (r: Result<usize, VfError>)
+    ensures a >= b ==> r == Ok::<usize, VfError>((a - b) as usize), a < b ==> r is Err
+{ unimplemented!() }
+/// `v[p..p + 8].copy_from_slice(&x.to_le_bytes())`
+#[verifier::external_body]
+pub fn vf_copy_le_u64(v: &mut Vec<u8>, p: usize, x: u64)
+    requires p + 8 <= old(v)@.len()
+    ensures
+        final(v)@.len() == old(v)@.len(),
+        forall|i: int| 0 <= i < old(v)@.len() && !(p <= i < p + 8) ==> final(v)@[i] == old(v)@[i],
+        vstd::bytes::spec_u64_from_le_bytes(final(v)@.subrange(p as int, p + 8)) == x,
+{ unimplemented!() }
+/// the static PICKLE_OPCODES phf map (src/opcodes.rs): U7 -- the Kani harness u7_tables proves, on the
+/// real static, that the table of protocol v is exactly the CPython vocabulary introduced up to v
+#[verifier::external_body]
+pub fn vf_pickle_opcodes(version: u8) -> (r: Option<&'static [OpcodeKind]>)
+    ensures
+        version <= 5 ==> r is Some,
+        r is Some ==> (forall|i: int| 0 <= i < r.unwrap()@.len() ==> ref_proto(#[trigger] r.unwrap()@[i]) <= version),
+        r is Some ==> r.unwrap()@.contains(OpcodeKind::None),
+{ unimplemented!() }
+
 pub assume_specification<T> [<[T]>::reverse] (s: &mut [T])
     ensures final(s)@ == old(s)@.reverse();
 
